@@ -236,6 +236,7 @@ class Extractor:
         self.name = None
         self.rlimit = None
         self.dropped = []
+        self.outer = []
 
     # -- helpers -------------------------------------------------------------
     def log(self, rule, rel, line, what):
@@ -437,7 +438,10 @@ class Extractor:
     def fn_parts(self, sf, it):
         """-> (sig_text, body_text) with sig_text from head_start up to (excluding) the body '{'."""
         if it.body_open is None:
-            return sf.text[it.head_start:it.end], None
+            t = sf.text[it.head_start:it.end].rstrip()
+            if t.endswith(';'):
+                t = t[:-1]
+            return t, None
         return sf.text[it.head_start:it.body_open], sf.text[it.body_open:it.body_close + 1]
 
     def emit_fn(self, node, sf, it, qual, stub=False, in_trait_decl=False):
@@ -706,6 +710,11 @@ class Extractor:
                 self.name = node.args[0]
             elif k == 'rlimit':
                 self.rlimit = node.args[0]
+            elif k == 'include':
+                sub = parse_unit(os.path.join(os.path.dirname(self.unit_path), node.args[0]))
+                self.process(sub.children)
+            elif k == 'outer':
+                self.outer.append(node.text)
             elif k == 'prelude' or k == 'raw':
                 if node.text is not None:
                     self.out.add(node.text + '\n\n', ('prelude', 'inline@%d' % node.line))
@@ -758,7 +767,7 @@ class Extractor:
         self._in_trait_impl = False
         self.out.add('#![allow(unused_imports, unused_variables, unused_mut, dead_code, unused_assignments, unused_parens, non_snake_case, unreachable_code, unreachable_patterns)]\nuse vstd::prelude::*;\nverus! {\n\n', ('glue',))
         self.process(self.root.children)
-        self.out.add('\n} // verus!\nfn main() {}\n', ('glue',))
+        self.out.add('\n} // verus!\n' + '\n'.join(self.outer) + '\nfn main() {}\n', ('glue',))
         return self.out.render()
 
     def emit_impl(self, node):
